@@ -98,7 +98,8 @@ type stubResp struct {
 	Status   int    `json:"status"`
 	Headers  []kv   `json:"headers"`
 	BodySize int    `json:"bodySize"`
-	Mode     string `json:"mode"` // ""|"hang" (never answer, until the request is cancelled)|"stream" (headers, one chunk, then hang)|"abort" (close the connection)
+	Mode     string `json:"mode"` // ""|"hang" (never answer, until the request is cancelled)|"stream" (headers, one chunk, then hang)|"abort" (close the connection)|"midabort" (headers, part of the body, then the connection dies)
+	Gate     bool   `json:"gate,omitempty"` // hold the request at the upstream until a "finish" step lets it go
 }
 type step struct {
 	K        string       `json:"k"` // req | join | health | trigger | apply | delete | waitready | waitgone | quiesce
@@ -121,7 +122,8 @@ type step struct {
 	Name     string       `json:"name,omitempty"`
 	Ready    []int        `json:"ready,omitempty"` // waitready: these stubs must be ready endpoints of Name
 	N        int          `json:"n,omitempty"`        // pops: number of picks
-	G        int          `json:"g,omitempty"`        // pops: concurrent pickers
+	G        int          `json:"g,omitempty"`        // pops: concurrent pickers; slots: the limit expected (stop re-measuring when reached)
+	How      string       `json:"how,omitempty"`      // finish: go | cancel
 	Resource string       `json:"resource,omitempty"` // pops: resource of the probe request attributes
 }
 type scenario struct {
@@ -202,6 +204,15 @@ func (s *stub) ServeHTTP(rw http.ResponseWriter, r *http.Request) {
 	if resp == nil {
 		resp = &stubResp{Status: 200}
 	}
+	if resp.Gate {
+		select {
+		case <-w.sigCh("go", id):
+		case <-r.Context().Done():
+			w.add(ev{"k": "upstream_cancelled", "id": id, "stub": s.idx})
+			w.signal("cancelled", id)
+			return
+		}
+	}
 	switch resp.Mode {
 	case "hang":
 		<-r.Context().Done()
@@ -209,6 +220,15 @@ func (s *stub) ServeHTTP(rw http.ResponseWriter, r *http.Request) {
 		w.signal("cancelled", id)
 		return
 	case "abort":
+		panic(http.ErrAbortHandler)
+	case "midabort":
+		rw.Header().Set("Content-Length", "100000")
+		rw.WriteHeader(200)
+		rw.Write(bodyOf(4096))
+		if f, ok := rw.(http.Flusher); ok {
+			f.Flush()
+		}
+		time.Sleep(20 * time.Millisecond)
 		panic(http.ErrAbortHandler)
 	}
 	for _, h := range resp.Headers {
@@ -248,6 +268,7 @@ type world struct {
 	pending map[string]chan struct{}
 	infos   map[*clusters.ClusterInfo]bool
 	pickers map[string]clusters.EndpointPicker
+	cancels map[string]context.CancelFunc // client side of asynchronous requests (step "finish" how=cancel)
 	epSeen  map[*clusters.EndpointInfo]string // every endpoint object ever seen in a cluster (url), for step "poke"
 }
 
@@ -409,12 +430,17 @@ func (w *world) doRequest(s step) {
 	if method == "" {
 		method = "GET"
 	}
-	ctx := context.Background()
-	var cancel context.CancelFunc = func() {}
+	ctx, cancel := context.WithCancel(context.Background())
 	if s.AbortMs > 0 {
 		ctx, cancel = context.WithTimeout(ctx, time.Duration(s.AbortMs)*time.Millisecond)
 	}
 	defer cancel()
+	w.mu.Lock()
+	if w.cancels == nil {
+		w.cancels = map[string]context.CancelFunc{}
+	}
+	w.cancels[s.ID] = cancel
+	w.mu.Unlock()
 	req, err := http.NewRequestWithContext(ctx, method, url, body)
 	if err != nil {
 		w.infra("bad request in scenario: %v", err)
@@ -673,6 +699,78 @@ func runScenario(t *testing.T, sc scenario) []ev {
 					w.add(ev{"k": "hung", "id": s.ID})
 				}
 			}
+		case "finish": // end an asynchronous request held at the upstream (how=go) or given up by its client (how=cancel)
+			if s.How == "cancel" {
+				w.mu.Lock()
+				c := w.cancels[s.ID]
+				w.mu.Unlock()
+				if c != nil {
+					c()
+				}
+			} else {
+				w.signal("go", s.ID)
+			}
+			w.mu.Lock()
+			done := w.pending[s.ID]
+			delete(w.pending, s.ID)
+			w.mu.Unlock()
+			if done != nil {
+				select {
+				case <-done:
+				case <-time.After(infraTimeout):
+					w.infra("finish: request %s did not end", s.ID)
+				}
+			}
+			w.add(ev{"k": "finished", "id": s.ID, "how": s.How})
+		case "slots":
+			// how many requests does the schema admit NOW: N requests that hang at the upstream are started one after the other
+			// (each has reached a stub or been answered before the next starts), then their clients give up.  A slot that is still
+			// being given back by a request that has just ended shows as a transient shortfall: measured again, the LAST result counts
+			// (a leaked slot stays leaked)
+			var admitted, rejected int
+			for attempt := 0; attempt < 4; attempt++ {
+				admitted, rejected = 0, 0
+				ids := []string{}
+				for k := 0; k < s.N; k++ {
+					id := fmt.Sprintf("%s-%d-%d", s.ID, attempt, k)
+					ids = append(ids, id)
+					rq := step{K: "req", ID: id, Host: s.Host, Method: "GET", Path: s.Path, Token: s.Token}
+					w.mu.Lock()
+					w.resps[id] = &stubResp{Mode: "hang"}
+					w.mu.Unlock()
+					done := make(chan struct{})
+					go func() { w.doRequest(rq); close(done) }()
+					select {
+					case <-w.sigCh("arrive", id):
+						admitted++
+					case <-done:
+						rejected++
+					case <-time.After(infraTimeout):
+						w.infra("slots: request %s neither arrived nor was answered", id)
+					}
+				}
+				for _, id := range ids {
+					w.mu.Lock()
+					c := w.cancels[id]
+					w.mu.Unlock()
+					if c != nil {
+						c()
+					}
+				}
+				for _, id := range ids {
+					select {
+					case <-w.sigCh("done", id):
+					case <-time.After(infraTimeout):
+						w.infra("slots: request %s did not end", id)
+					}
+				}
+				time.Sleep(30 * time.Millisecond)
+				if admitted == s.G {
+					break
+				}
+				time.Sleep(150 * time.Millisecond)
+			}
+			w.add(ev{"k": "slots", "id": s.ID, "admitted": admitted, "rejected": rejected, "want": s.G})
 		case "match": // first half of a request as the dispatcher performs it (ClusterInfo.MatchAttributes)
 			ci, ok := w.ctrl.Get(s.Name)
 			if !ok {
